@@ -78,6 +78,19 @@ impl Context {
         }
     }
 
+    /// The number of states (function/sub calls, argument collections, error handlers).
+    pub fn states_len(&self) -> usize {
+        self.states.len()
+    }
+
+    /// Drops the states above the given length, e.g. the arguments that were being
+    /// collected or the built-in function/sub that was running when an error occurred.
+    pub fn truncate_states(&mut self, len: usize) {
+        while self.states.len() > len.max(1) {
+            self.do_pop();
+        }
+    }
+
     pub fn push_error_handler_context(&mut self) {
         // drop all ArgumentState until we hit the first NormalState
         while self.states.last().unwrap().arguments.is_some() {
